@@ -359,7 +359,9 @@ func (an *Analysis) handleStructFields(typ *types.Struct, ctx context) []StructF
 
 		// to simplify, we do not fully support embedded fields :
 		// we only accept structs, and we merge the fields
-		if field.Embedded() {
+		// (like encoding/json, an embedded field with a JSON name is not flattened)
+		jsonName, _, _ := strings.Cut(tag.Get("json"), ",")
+		if field.Embedded() && jsonName == "" {
 			if st, isStruct := fieldType.(*Struct); isStruct {
 				log.Printf("gomacro: embedded struct field %s will be flattened", field.Name())
 				out = append(out, st.Fields...)
